@@ -711,7 +711,8 @@ pub fn run_op(ctx: &mut Ctx, op: &str) {
 // ------------------------------------------------------------------ generator
 
 const TOLS: [f64; 3] = [0.0, 0.05, 0.5];
-const POINT_MODES: [&str; 7] = ["uniform", "duplicates", "coincident", "collinear", "clustered", "lattice", "wide"];
+const POINT_MODES: [&str; 8] =
+    ["uniform", "duplicates", "coincident", "collinear", "clustered", "lattice", "wide", "tiny"];
 const WEIGHT_MODES: [&str; 6] = ["unit", "spread", "one-heavy", "zeros", "small", "heavy-tail"];
 
 fn frac(rng: &mut Rng, lo: i64, hi: i64) -> f64 {
@@ -778,6 +779,15 @@ fn gen_points(rng: &mut Rng, dim: usize, n: usize, mode: &str) -> Vec<f64> {
             let side = 1 + rng.range(1, 6);
             for _ in 0..n * dim {
                 v.push(rng.range(0, side) as f64);
+            }
+        }
+        "tiny" => {
+            // a box of subnormal / near-underflow width (2^order / width overflows f64: the
+            // segment_to_segment hang fixed by 524abd8), around zero or around an offset
+            let unit = *rng.pick(&[5e-324, 1e-310, 1e-300, 1e-292]);
+            let org = if rng.chance(1, 2) { 0.0 } else { frac(rng, -3, 3) * unit * 16.0 };
+            for _ in 0..n * dim {
+                v.push(org + rng.range(0, 9) as f64 * unit);
             }
         }
         _ => {
